@@ -242,6 +242,7 @@ func (c *FnCtx) execInstr(b *ssa.BasicBlock, in ssa.Instruction, st *State, reac
 		k := c.term(x.Key)
 		v := c.term(x.Value)
 		hk, hs, vk, vs := c.g.mapHeapKeys(mt)
+		c.safety("nilmap", reach, not(eq(m, tZero)), "assignment to entry in nil map")
 		has := c.heap(st, hk, hs)
 		vals := c.heap(st, vk, vs)
 		ml := c.heap(st, "MLen", arraySort(SInt, SInt))
